@@ -1,5 +1,6 @@
 import RosuModel.Model.ManiaSkill
 import RosuModel.Model.CatchSkill
+import RosuModel.Model.TaikoSkill
 import RosuModel.Model.StarsWire
 
 /-
@@ -49,7 +50,9 @@ def signBit32 (x : Float32) : Bool := x.toBits >>> 31 == 1
 (mania's `INDIVIDUAL_DECAY_BASE`, the only power-of-two base in the two skills) is executed as
 `exp2(-3.0 * x)`; every other call reaches the C library's `pow`. -/
 def powf64 (a b : Float) : Float :=
-  if a == 0.125 then Float.exp2 (b * -3.0) else Float.pow a b
+  if a == 0.125 then Float.exp2 (b * -3.0)
+  else if b == 2.0 then a * a  -- `pow(x, 2.0) -> x * x`, same simplifier, unconditional
+  else Float.pow a b
 
 instance : FOps Float where
   ofScientific m s e := litOf 53 m s e
@@ -67,6 +70,9 @@ instance : FOps Float where
   sqrt := Float.sqrt
   powf := powf64
   exp := Float.exp
+  cos := Float.cos
+  isNormal x := x.isFinite && x.abs ≥ Float.ofBits 0x0010000000000000
+  ofInt := Float.ofInt
   signum x := if x.isNaN then x else if signBit64 x then -1.0 else 1.0
   storable x := isValueBits x.toBits.toNat
   isNonZero x := x.toBits != 0
@@ -88,6 +94,9 @@ instance : FOps Float32 where
   sqrt := Float32.sqrt
   powf := Float32.pow
   exp := Float32.exp
+  cos := Float32.cos
+  isNormal x := x.isFinite && x.abs ≥ Float32.ofBits 0x00800000
+  ofInt n := (Float.ofInt n).toFloat32
   signum x := if x.isNaN then x else if signBit32 x then -1.0 else 1.0
   -- the three `StrainsVec` operations exist for `f64` only
   storable x := x.toBits != 0 && !signBit32 x
@@ -192,5 +201,61 @@ def handleCSKILL (rate cs take objs : String) : String :=
       let h := String.ofList (palpable.map fun p => if p.hyperDash then '1' else '0')
       let g := joinWith ";" (palpable.map fun p => show32 p.distToHyperDash)
       s!"W{show32 hcw} H{if palpable.isEmpty then "-" else h} G{if palpable.isEmpty then "-" else g} O{showFs st.objectStrains} P{showHexList peaks} D{StarsWire.showZ dv} S{StarsWire.showZ stars} X{if x then 1 else 0}"
+
+/-! ### taiko -/
+
+def optF (s : String) : Option Float := if s == "-" then none else some (fOf (hexToNat s))
+def optN (s : String) : Option Nat := if s == "-" then none else some (nat! s)
+
+def parseAlt (a r : String) : Option (Nat × Option Nat) :=
+  if a == "-" then none else some (nat! a, optN r)
+
+def parseRhythmGroup (s : String) : Option (Option (TaikoSkill.RhythmGroup Float)) :=
+  if s == "-" then some none
+  else match s.splitOn ":" with
+    | [ratio, len, dur, chain] =>
+      let ch := (if chain == "e" then [] else chain.splitOn "/").map fun t => if t == "n" then none else some (fOf (hexToNat t))
+      some (some ⟨fOf (hexToNat ratio), nat! len, optF dur, ch⟩)
+    | _ => none
+
+def parseTRec (i : Nat) (s : String) : Option (TaikoSkill.TObj Float) :=
+  match s.splitOn "," with
+  | [start, delta, hit, bpm, ratio, p1, p2, mi, pm2, pm8, pcc, ncc, mf, af, rf, rh, pr] =>
+    match parseRhythmGroup rh, mf.splitOn ":", af.splitOn ":" with
+    | some g, [m, ma, mr], [a, ar] =>
+      some { idx := i, startTime := fOf (hexToNat start),
+             data := { isHit := bool! hit, deltaTime := fOf (hexToNat delta), effectiveBpm := fOf (hexToNat bpm),
+                       ratio := fOf (hexToNat ratio), prevStart := optF p1, prev2Start := optF p2,
+                       monoIndex := nat! mi, prevMono2 := optF pm2, prevMono8 := optF pm8,
+                       prevColorChange := optF pcc, nextColorChange := optF ncc,
+                       monoFirst := if m == "-" then none else some (nat! m, parseAlt ma mr),
+                       altFirst := parseAlt a ar, repFirst := optN rf, rhythmFirst := g,
+                       patternFirstRatio := optF pr } }
+    | _, _, _ => none
+  | _ => none
+
+def canonList (l : List Float) : List Nat := l.map bitsOf
+
+/-- `TSKILL <sum0> <great hit window> <rx><convert> <n_processed> <records>` →
+per-object strains and exported peaks of the five skill instances, then the ratings and stars
+`DifficultyValues::eval` derives from them (`StarsWire.taikoEval`) -/
+def handleTSKILL (sum0 hw flags n recs : String) : String :=
+  let toks := splitList recs ";"
+  let parsed := (List.range toks.length).zip toks |>.map fun (i, t) => parseTRec i t
+  if parsed.any Option.isNone then "bad-tskill"
+  else
+    let os := parsed.filterMap id
+    let rx := StarsWire.flag flags 0
+    let conv := StarsWire.flag flags 1
+    showRes (TaikoSkill.calculate (secArith 400.0) driverFuel (fOf (hexToNat hw)) conv (nat! n) os) fun sk =>
+      let pr := canonList (exportPeaksV sk.rhythm)
+      let pd := canonList (exportPeaksV sk.reading)
+      let pc := canonList (exportPeaksV sk.color)
+      let ps := canonList (exportPeaksV sk.stamina)
+      let pm := canonList (exportPeaksV sk.singleColorStamina)
+      let o := StarsWire.taikoEval (hexToNat sum0) rx conv pr pd pc ps pm (sk.stamina.objectStrains.map bitsOf)
+      s!"R{showFs sk.rhythm.objectStrains} D{showFs sk.reading.objectStrains} C{showFs sk.color.objectStrains} T{showFs sk.stamina.objectStrains} M{showFs sk.singleColorStamina.objectStrains} " ++
+      s!"PR{showHexList pr} PD{showHexList pd} PC{showHexList pc} PT{showHexList ps} PM{showHexList pm} " ++
+      s!"R{StarsWire.showZ o.rhythm} D{StarsWire.showZ o.reading} C{StarsWire.showZ o.color} T{StarsWire.showZ o.stamina} M{StarsWire.showZ o.monoStaminaFactor} S{StarsWire.showZ o.stars}"
 
 end Rosu.SkillWire
